@@ -104,9 +104,22 @@ class Guards:
             stop = set(self.all) | {self.replay}
             R = self.ctx.R
 
+            prog = self.ctx.prog
+
+            def compares(g):
+                # a helper of another class that wraps a JSON-equality
+                # comparison (e.g. Cache.has_same_func_version)
+                return any(isinstance(h, Func) and
+                           h.qualname == 'JsonUtil.is_equal'
+                           for c in prog.calls_in(g)
+                           for h in prog.resolve_call(c, g))
+
             def inline(g):
-                return g.cls == R.builder and g not in stop and \
-                    not g.is_public
+                if g in stop or g.is_ctor_call:
+                    return False
+                if g.cls == R.builder:
+                    return not g.is_public
+                return g.cls == R.cache and compares(g)
             self._sg[d.qualname] = self.ctx.E.super(d, inline)
         return self._sg[d.qualname]
 
